@@ -4,5 +4,6 @@ CONSTANTS
   Funcs = {"f", "g"}
   MaxAttempts = 2
   ClearOnFail = TRUE
+  ClearOnReadFail = TRUE
   UseLock = FALSE
 INVARIANT Deterministic
